@@ -607,6 +607,19 @@ func (ce *CEnv) evalBinary(n *ast.BinaryExpr) (Val, error) {
 		return Val{T: a.T, C: []*Term{BVBin(op, a.C[0], cnt)}}, nil
 	}
 	if a.T == types.Typ[types.Invalid] || b.T == types.Typ[types.Invalid] {
+		// a captured variable of an opaque function value compared with a one-component value
+		op, other := a, b
+		if op.T != types.Typ[types.Invalid] {
+			op, other = b, a
+		}
+		if (n.Op == token.EQL || n.Op == token.NEQ) && other.T != types.Typ[types.Invalid] && len(other.C) == 1 && len(op.C) == 1 && op.C[0].Op == "uf" && strings.HasPrefix(op.C[0].Name, "capt!") {
+			u := UF(op.C[0].Name+"!"+other.C[0].Sort.String(), other.C[0].Sort, op.C[0].Args[0])
+			e := Eq(u, other.C[0])
+			if n.Op == token.NEQ {
+				e = Not(e)
+			}
+			return bval(e), nil
+		}
 		return bval(FreshVar("opaque", BoolSort)), nil
 	}
 	a, b = ce.coerce(a, b)
@@ -949,12 +962,14 @@ func (ce *CEnv) evalCall(n *ast.CallExpr) (Val, error) {
 			}
 			want, _ := strconv.Unquote(lit.Value)
 			if a.C[0].Op != "intconst" {
-				// opaque function value: the captured variable is unknown (comparisons with it are unconstrained)
-				return Val{T: types.Typ[types.Invalid], C: []*Term{FreshVar("opaque", IntSort)}}, nil
+				// opaque function value: the captured variable is an uninterpreted function of the function
+				// value (its sort is fixed by what it is compared with), so that facts stated about it by one
+				// contract can be used by another
+				return Val{T: types.Typ[types.Invalid], C: []*Term{UF("capt!"+want, IntSort, a.C[0])}}, nil
 			}
 			cl, ok := ce.x.closures[int(a.C[0].Val.Int64())]
 			if !ok {
-				return Val{T: types.Typ[types.Invalid], C: []*Term{FreshVar("opaque", IntSort)}}, nil
+				return Val{T: types.Typ[types.Invalid], C: []*Term{UF("capt!"+want, IntSort, a.C[0])}}, nil
 			}
 			for i, fv := range cl.Fn.FreeVars {
 				if fv.Name() == want && i < len(cl.Bindings) {
@@ -979,7 +994,7 @@ func (ce *CEnv) evalCall(n *ast.CallExpr) (Val, error) {
 					return bval(BoolT(nm == want)), nil
 				}
 			}
-			return bval(FreshVar("opaque", BoolSort)), nil
+			return bval(UF("isclosure!"+want, BoolSort, a.C[0])), nil
 		case "tape":
 			a, err := ce.eval(n.Args[0])
 			if err != nil {
